@@ -12,6 +12,7 @@ Record case := {
   k_dst : str;
   k_inpkg : bool;
   k_ifaces : list cif;
+  k_decl : list (rkey * str);      (* generic replacement targets: type-parameter list of the declaration *)
   k_obs : list (str * list (str * list str * list str));
   k_imports : list (str * str)
 }.
@@ -21,8 +22,12 @@ Definition cfg_of_rt (rt : rtmap) : cfg := {| c_ptr := fun _ => None; c_td := []
 (* the mock's map: C08's merge over the written chain *)
 Definition eff_rt (chain : list rtmap) : rtmap := c_rt (eff_cfg (map cfg_of_rt chain)).
 
+Definition case_decl (c : case) (r : rkey) : str :=
+  match rget r (map (fun e => (fst e, (snd e, snd e))) (k_decl c)) with Some d => fst d | None => [] end.
+
 Definition model_ifaces (c : case) : list iface :=
-  map (fun ci => {| i_name := ci_name ci; i_rt := eff_rt (ci_chain ci); i_methods := ci_methods ci |}) (k_ifaces c).
+  map (fun ci => {| i_name := ci_name ci; i_rt := resolve_targets (case_decl c) (eff_rt (ci_chain ci));
+                    i_methods := ci_methods ci |}) (k_ifaces c).
 
 Definition model_imports (c : case) : list (str * str) :=
   file_imports (k_names c) (k_dst c) (k_inpkg c) (model_ifaces c).
